@@ -1,6 +1,6 @@
 SPECIFICATION Spec
 CONSTANT Depth = 4
 CONSTANT PeerHandleBase = 70000
-CONSTANT Side = "client"
+CONSTANT Side = "listener"
 INVARIANT Emit
 CHECK_DEADLOCK FALSE
